@@ -34,6 +34,7 @@ def judge (suite : String) (inp obs : List String) : Verdict :=
   | "route" => Judge.C15.judge inp obs
   | "dnsdec" => Judge.DnsWire.judgeDec inp obs
   | "dnsenc" => Judge.DnsWire.judgeEnc inp obs
+  | "dnsrt" => Judge.DnsWire.judgeRt inp obs
   | "inreply" => Judge.C03.judge inp obs
   | "leasedb" => Judge.C18.judge inp obs
   | "ra" => Judge.C17.judge inp obs
